@@ -25,7 +25,7 @@ TECHNIQUE = "explicit-state BFS over real storage objects (all dump keys as tran
 RULE = ("backends FileArray, DictArray, SharedMemoryDictArray x full shapes (3,), (2,3) (thorough: (3,) depth 5, (2,3) depth 3, (3,2) depth 2, (2,3,2) depth 1) x all 2^rank external/internal masks; "
         "transitions = dump(key, fresh value) for EVERY external key tuple over ints in [-n,n) and slices {:, ::2, ::-1, 1:}; reads on every state = "
         "__getitem__ for every full-rank key tuple from the same per-axis menu, to_array(splat_internal None/False/True), mask, mask_linear, has_index, "
-        "get_from_index, persist+reopen, and error keys (each axis out of range by +-1, rank +-1). States merged by stored content with values renamed by first appearance")
+        "get_from_index, persist+reopen, and error keys (each axis out of range by +-1, rank +-1). SharedMemoryDictArray at depth 1 for rank 2 in quick (every proxy call is an RPC). States merged by stored content with values renamed by first appearance")
 ASSUMPTIONS = ["reference = numpy masked object array of the full shape (vmc/props/c07.py:Ref)",
                "a masked scalar, np.ma.masked inside an object array and a set mask bit all denote 'missing'",
                "get_from_index is only read for written elements (reading an unwritten linear index is not specified)",
@@ -141,11 +141,33 @@ def norm(x):
 # ------------------------------------------------------------------------------------------------
 def replay_history(cfg, hist):
     """fresh real object + reference with the history applied; returns (arr, ref, folder, error)"""
-    base = boot.mkscratch("c07-")
+    global _COUNTER
+    if _UNIT_BASE is None:
+        base = boot.mkscratch("c07-")
+    else:  # inside a work unit: one scratch root per unit, a fresh (non-existent) sub-folder per history
+        _COUNTER += 1
+        base = os.path.join(_UNIT_BASE, str(_COUNTER))
     folder = os.path.join(base, "arr")  # non-existent path: DictArray(folder) must not find a stale folder
     arr = make(cfg, folder)
     ref = Ref(cfg)
     err = None
+    mid = []
+
+    def cheap_reads(after):
+        # reads are interleaved with the writes on the SAME object (a stale cached mask, say, only shows when a read
+        # precedes the write): mask and mask_linear after every prefix of the history
+        try:
+            em = ref.ext_missing()
+            got_m = norm(np.asarray(np.ma.getdata(arr.mask), dtype=bool))
+            got_l = norm(np.asarray(list(arr.mask_linear()), dtype=bool))
+            if got_m != norm(em):
+                mid.append((f"mask after {after} writes (reads interleaved)", str(got_m), str(norm(em))))
+            if got_l != norm(em.reshape(-1)):
+                mid.append((f"mask_linear after {after} writes (reads interleaved)", str(got_l), str(norm(em.reshape(-1)))))
+        except Exception as e:  # noqa: BLE001
+            mid.append((f"mask read after {after} writes", f"raised {type(e).__name__}: {str(e)[:60]}", "a mask"))
+
+    cheap_reads(0)
     for step, kj in enumerate(hist, 1):
         key = key_from_json(kj)
         v = value_for(cfg, step)
@@ -155,6 +177,8 @@ def replay_history(cfg, hist):
             err = (step, e)
             break
         ref.dump(key, v)
+        cheap_reads(step)
+    arr._vmc_mid = mid
     return arr, ref, base, folder, err
 
 
@@ -280,6 +304,8 @@ def check_history(cfg, hist, full_reads=True):
             return [(findings.exc_sig(e, op="dump", slice_key=slice_key, **pred),
                      f"{cfg}: dump({hist[step - 1]}) (step {step} of {hist}) raised {type(e).__name__}: {str(e)[:100]}")], None
         vs = []
+        for what, got, exp in getattr(arr, "_vmc_mid", []):
+            vs.append(({"kind": "read-mismatch", "op": what.split(" ")[0], "interleaved": True, **pred}, f"{cfg} history {hist}: {what} = {got}, reference {exp}"))
         before = stored_state(arr)
         for what, got, exp, extra in read_table(cfg, arr, ref, folder, full_reads):
             opk = what.split("(")[0].split("[")[0].split("-")[0]
@@ -294,7 +320,8 @@ def check_history(cfg, hist, full_reads=True):
                            f"{cfg} after dumps {hist}: {what} = {got}, reference {exp}"))
         return vs, before
     finally:
-        shutil.rmtree(base, ignore_errors=True)
+        if os.path.exists(base):
+            shutil.rmtree(base, ignore_errors=True)
 
 
 # ------------------------------------------------------------------------------------------------
@@ -355,9 +382,13 @@ def plan(tier, seed):
         for mask in itertools.product((True, False), repeat=len(full)):
             for backend in CLASSES:
                 cfg = {"backend": backend, "full": list(full), "mask": list(mask)}
+                if backend == "shared_memory_dict" and len(full) > 1:
+                    depth_b = 1 if tier == "quick" else max(1, depth - 1)  # every proxy operation is an RPC: lower depth
+                else:
+                    depth_b = depth
                 nch = 1 if len(full) == 1 else (8 if all(mask) else 4)
                 for c in range(nch):
-                    units.append((f"rank{len(full)}-depth{depth}", ("bfs", cfg, depth, c, nch)))
+                    units.append((f"rank{len(full)}-depth{depth}", ("bfs", cfg, depth_b, c, nch)))
     by = {}
     for st, u in units:
         by.setdefault(st, []).append((st, u))
@@ -368,10 +399,20 @@ def plan(tier, seed):
     return out
 
 
+_UNIT_BASE = None
+_COUNTER = 0
+
+
 def run_unit(unit):
+    global _UNIT_BASE
     acc = Acc()
     _, cfg, depth, c, nch = unit
-    bfs(cfg, depth, acc, c, nch)
+    _UNIT_BASE = boot.mkscratch("c07u-")
+    try:
+        bfs(cfg, depth, acc, c, nch)
+    finally:
+        shutil.rmtree(_UNIT_BASE, ignore_errors=True)
+        _UNIT_BASE = None
     acc.stratum(f"{cfg['backend']}-full{tuple(cfg['full'])}-mask{''.join('E' if m else 'I' for m in cfg['mask'])}")
     return acc
 
